@@ -293,6 +293,9 @@ class ConnectionPool(RequestInterface):
                 connection.is_idle()
                 and sum(connection.is_idle() for connection in self._connections)
                 > self._max_keepalive_connections
+                and not any(
+                    request.connection is connection for request in self._requests
+                )
             ):
                 # log: "closing idle connection"
                 self._connections.remove(connection)
